@@ -19,9 +19,6 @@ M = [
   "io.CopyN(ioutil.Discard, r.input, int64(r.expectedChunkLength))", "io.CopyN(ioutil.Discard, r.input, int64(r.expectedChunkLength&0xFF))"),
  ("c02-vlq-reader-drops-4th-byte-bits", "C02,C03", "internal/utils/utils.go",
   "\t\tresult = result << 7\n\n\t\tnum, _ = reader.Read(buffer)", "\t\tresult = (result << 7) & 0x1FFFFF\n\n\t\tnum, _ = reader.Read(buffer)"),
- ("c03-running-status-across-tracks", "C03,C01", "smf/writer.go",
-  "\tif !w.SMF.NoRunningStatus {\n\t\tw.runningWriter = runningstatus.NewSMFWriter()\n\t}\n\n\t// remove the data for the next track",
-  "\t// remove the data for the next track"),
  ("c03-vlq-encoder-boundary", "C03,C01", "internal/utils/utils.go",
   "\tfor quo > 0 {\n\t\tout = append(out, byte(quo)|vlqContinue)", "\tfor quo > 0 && len(out) < 4 {\n\t\tout = append(out, byte(quo)|vlqContinue)"),
  ("c04-timestamp-one-chunk-late", "C04", "drivers/reader.go",
@@ -33,8 +30,6 @@ M = [
   "\tcase b > 0xF0 && b < 0xF7:\n\t\tr.statusByte = 0\n\t\tr.issetBf = false // reset buffer", "\tcase b > 0xF0 && b < 0xF7:\n\t\tr.issetBf = false // reset buffer"),
  ("c06-sysex-exactly-buffer-size-dropped", "C04,C06", "drivers/reader.go",
   "\t\t\tif r.HandleSysex && r.sysexlen < len(r.sysexBf) {", "\t\t\tif r.HandleSysex && r.sysexlen < len(r.sysexBf)-1 {"),
- ("c05-short-payload-zero-filled", "C05,C09", "internal/utils/utils.go",
-  "\tnum, err := io.ReadFull(rd, b)\n\n\t// if num is correct, we are not interested in io.EOF errors\n\tif num == n {", "\tnum, err := io.ReadFull(rd, b)\n\n\t// if num is correct, we are not interested in io.EOF errors\n\tif num > 0 {"),
  ("c07-noteoffvelocity-clamp-dropped", "C07", "channel.go",
   "func NoteOffVelocity(channel, key, velocity uint8) Message {\n\tif channel > 15 {\n\t\tchannel = 15\n\t}\n\n\tif key > 127 {\n\t\tkey = 127\n\t}\n\tif velocity > 127 {\n\t\tvelocity = 127\n\t}",
   "func NoteOffVelocity(channel, key, velocity uint8) Message {\n\tif channel > 15 {\n\t\tchannel = 15\n\t}\n\n\tif key > 127 {\n\t\tkey = 127\n\t}"),
@@ -42,20 +37,14 @@ M = [
   "\t\tvar _key, _pressure = utils.ParseTwoUint7(m[1], m[2])", "\t\tvar _pressure, _key = utils.ParseTwoUint7(m[1], m[2])"),
  ("c08-metachannel-length-guard-removed", "C08", "smf/message.go",
   "\tif !m.Is(MetaChannelMsg) {\n\t\treturn false\n\t}\n\n\tif len(m) != 4 {\n\t\treturn false\n\t}\n", "\tif !m.Is(MetaChannelMsg) {\n\t\treturn false\n\t}\n"),
- ("c08-f4-classified-as-tune", "C08", "syscommon.go",
-  "\tbyteSysTuneRequest:/* SysCommonMsg.Set(TuneMsg), */ TuneMsg,\n}", "\tbyteSysTuneRequest:/* SysCommonMsg.Set(TuneMsg), */ TuneMsg,\n\t0xF4: TuneMsg,\n\t0xF0: SysExMsg,\n}"),
  ("c08-getnoteon-accepts-noteoff", "C08,C07", "message.go",
   "func (m Message) GetNoteOn(channel, key, velocity *uint8) (is bool) {\n\tif !m.Is(NoteOnMsg) {", "func (m Message) GetNoteOn(channel, key, velocity *uint8) (is bool) {\n\tif !m.Is(NoteOnMsg) && !(m.Is(NoteOffMsg) && len(m) == 3 && m[2] == 0x40) {"),
  ("c10-reader-treats-any-error-as-eof", "C10,C05", "smf/reader.go",
   "\tif err == ErrFinished || err == io.EOF {\n\t\treturn rd.SMF, nil\n\t}\n\n\tif err != nil {\n\t\treturn nil, err\n\t}", "\tif err == ErrFinished || err == io.EOF || err != nil {\n\t\treturn rd.SMF, nil\n\t}"),
  ("c10-last-chunk-error-swallowed", "C10", "smf/smf.go",
   "\t\terr = wr.writeChunkTo(wr.output)\n\n\t\tif err != nil {\n\t\t\treturn wr.output.size, err\n\t\t}", "\t\terr = wr.writeChunkTo(wr.output)\n\n\t\tif err != nil && wr.tracksProcessed+1 < wr.numTracks {\n\t\t\treturn wr.output.size, err\n\t\t}"),
- ("c11-tempo-at-the-tick-instead-of-before", "C11", "smf/smf.go",
-  "\tprevTc := s.tempoChanges.TempoChangeAt(absTicks - 1)", "\tprevTc := s.tempoChanges.TempoChangeAt(absTicks)"),
  ("c11-ticks-truncates", "C11,C13", "smf/timeformat.go",
   "\tticks = uint32(math.Round((float64(d.Nanoseconds()) / 1000000 * float64(uint16(q)) * fractionalBPM) / 60000))", "\tticks = uint32((float64(d.Nanoseconds()) / 1000000 * float64(uint16(q)) * fractionalBPM) / 60000)"),
- ("c11-repeated-tick-copy-dropped", "C11", "smf/smf.go",
-  "\t\tif diffTicks == 0 {\n\t\t\ttc.AbsTimeMicroSec = lasttcTimeMicroSec\n\t\t\tcontinue\n\t\t}", "\t\tif diffTicks == 0 {\n\t\t\tcontinue\n\t\t}"),
  ("c12-default-port-ignored-for-track-0", "C12", "smf/track.go",
   "\t\t\t\t\tif def, hasDef := trackouts[-1]; hasDef {", "\t\t\t\t\tif def, hasDef := trackouts[-1]; hasDef && te.TrackNo > 0 {"),
  ("c12-sysex-and-meta-filter-swapped", "C12", "smf/message.go",
@@ -64,8 +53,6 @@ M = [
   "\t\tif !msg.Is(midi.ChannelMsg) && !msg.Is(midi.SysExMsg) {\n\t\t\treturn\n\t\t}", "\t\tif !msg.Is(midi.ChannelMsg) && !msg.Is(midi.SysExMsg) {\n\t\t\tabsmillisec = absms\n\t\t\treturn\n\t\t}"),
  ("c14-timing-clock-option-also-drops-start", "C14", "drivers/testdrv/driver.go",
   "\t\tif msg.Is(midi.TimingClockMsg) && !conf.TimeCode {", "\t\tif msg.IsOneOf(midi.TimingClockMsg, midi.StartMsg) && !conf.TimeCode {"),
- ("c14-sysex-off-drops-following-message", "C14", "drivers/reader.go",
-  "\t\t\tr.state = readerStateClean\n\t\t\t// sysex messages larger than the buffer are ignored", "\t\t\tr.state = readerStateClean\n\t\t\tif !r.HandleSysex {\n\t\t\t\tr.state = readerStateWithinUnknown\n\t\t\t}\n\t\t\t// sysex messages larger than the buffer are ignored"),
  ("c15-tempo-floor-instead-of-round", "C15", "smf/meta.go",
   "\tr := uint32(math.Round(bpmFac / bpm))", "\tr := uint32(math.Floor(bpmFac / bpm))"),
  ("c15-denominator-128", "C15", "smf/helpers.go",
@@ -98,6 +85,17 @@ M = [
   "\t\tif b.TimeSig != [2]uint8{0, 0} && b.TimeSig != timesig {", "\t\tif b.TimeSig != [2]uint8{0, 0} && b.TimeSig != timesig && b.TimeSig != [2]uint8{4, 4} {"),
  ("c20-closing-delta-from-bar-count", "C20", "sequencer/song.go",
   "\t\tt.Close(uint32(s.lastTick - lasttick))\n\t\tsm.Add(t)\n\n\t}", "\t\tt.Close(uint32(s.lastTick - lasttick))\n\t\tif len(s.bars) > 9 {\n\t\t\tt[len(t)-1].Delta = 0\n\t\t}\n\t\tsm.Add(t)\n\n\t}"),
+ ("c03-stale-track-count", "C03,C01", "smf/smf.go",
+  "\ts.numTracks = uint16(len(s.Tracks))\n\tif s.numTracks == 0 {\n\t\treturn 0, fmt.Errorf(\"no track added\")\n\t}",
+  "\tif s.numTracks == 0 {\n\t\ts.numTracks = uint16(len(s.Tracks))\n\t}\n\tif s.numTracks == 0 {\n\t\treturn 0, fmt.Errorf(\"no track added\")\n\t}"),
+ ("c11-tempo-change-lookup-off-by-one", "C11", "smf/tempochanges.go",
+  "\t\tif tc.AbsTicks > absTicks {\n\t\t\tbreak\n\t\t}", "\t\tif tc.AbsTicks >= absTicks {\n\t\t\tbreak\n\t\t}"),
+ ("c14-active-sense-passes-when-sysex-on", "C14", "drivers/testdrv/driver.go",
+  "\t\tif msg.Is(midi.ActiveSenseMsg) && !conf.ActiveSense {", "\t\tif msg.Is(midi.ActiveSenseMsg) && !conf.ActiveSense && !conf.SysEx {"),
+ ("c08-realtime-range-includes-noteon", "C08", "type.go",
+  "\t\tcase RealTimeMsg:\n\t\t\treturn t <= reservedRealTimeMsg14", "\t\tcase RealTimeMsg:\n\t\t\treturn t <= NoteOnMsg"),
+ ("c05-vlq-eof-is-clean-end", "C05,C10", "internal/utils/utils.go",
+  "\tif num == 0 && !first {\n\t\treturn result, ErrUnexpectedEOF\n\t}", "\tif num == 0 && !first {\n\t\treturn result, io.EOF\n\t}"),
 ]
 out = os.path.join(os.path.dirname(os.path.abspath(__file__)), "mutants")
 os.makedirs(out, exist_ok=True)
